@@ -200,6 +200,8 @@ def run_catalogue(spec0, res):
         shown = int(rng.integers(1, nres + 1))
         full = copy.deepcopy(spec)
 
+        archived = set()
+
         def write(nshow):
             s = copy.deepcopy(full)
             s['restarts'] = full['restarts'][:nshow]
@@ -212,21 +214,33 @@ def run_catalogue(spec0, res):
                         with open(os.path.join(dirpath, fn)) as f:
                             keep[os.path.relpath(os.path.join(dirpath, fn), simdir)] = f.read()
             param = etgen.make_sim(root, s)
+            for k in archived:          # moved to tape by the user
+                shutil.rmtree(os.path.join(simdir, f'output-{k:04d}'), ignore_errors=True)
             if spec.get('active_link'):
                 # SimFactory keeps a link to the running restart
                 last = f'output-{nshow - 1:04d}'
                 os.symlink(last, os.path.join(simdir, last + '-active'))
             for rel, txt in keep.items():
-                with open(os.path.join(simdir, rel), 'w') as f:
-                    f.write(txt)
+                if os.path.isdir(os.path.dirname(os.path.join(simdir, rel))):
+                    with open(os.path.join(simdir, rel), 'w') as f:
+                        f.write(txt)
             return param
         param = write(shown)
         last = None
         catalogued = set()
         for step in range(int(rng.integers(2, 7))):
             op = str(rng.choice(['iterations', 'read_iterations', 'get_content', 'add_restart',
-                                 'iterations']))
+                                 'iterations', 'archive_restart']))
             skip_last = bool(rng.random() < 0.4)
+            if op == 'archive_restart':
+                # an old restart that is already in the catalogue is moved away;
+                # what was catalogued stays, newer restarts are still picked up
+                cand = sorted(k for k in catalogued if k not in archived and k < shown - 1)
+                if cand and not spec.get('active_link'):
+                    archived.add(cand[0])
+                    param = write(shown)
+                    seq.append(f'archive_restart({cand[0]})')
+                continue
             if op == 'add_restart':
                 if shown < nres:
                     shown += 1
@@ -244,7 +258,7 @@ def run_catalogue(spec0, res):
                     elif op == 'read_iterations':
                         last = reading.read_iterations(param, skip_last=skip_last, verbose=False)
                     else:
-                        r = int(rng.integers(shown))
+                        r = int(rng.choice([k for k in range(shown) if k not in archived]))
                         ow = bool(rng.random() < 0.3)
                         c1 = reading.get_content(param, restart=r, overwrite=ow, verbose=False)
                         c2 = reading.get_content(param, restart=r, verbose=False)   # cached
@@ -268,7 +282,7 @@ def run_catalogue(spec0, res):
                 continue
             # ---- which restarts may appear: everything catalogued before plus the
             # completed ones (all but the last when skip_last=True)
-            allowed = catalogued | set(range(shown if not skip_last else shown - 1))
+            allowed = catalogued | (set(range(shown if not skip_last else shown - 1)) - archived)
             if op == 'read_iterations' and had_file:
                 allowed = set(catalogued)       # only re-reads the existing catalogue
             empty = {r for r in range(nres)
@@ -335,7 +349,7 @@ def run_catalogue(spec0, res):
         res['observations'] += 2
         if not check_overall(res, final, spec, shown, seq):
             return
-        if norm_cat(final) != norm_cat(fresh) or norm_overall(final) != norm_overall(fresh):
+        if not archived and (norm_cat(final) != norm_cat(fresh) or norm_overall(final) != norm_overall(fresh)):
             common.add_violation(res, "incremental catalogue differs from one fresh scan",
                                  {"sequence": seq, "incremental": str(norm_cat(final))[:500],
                                   "fresh": str(norm_cat(fresh))[:500],
